@@ -5,7 +5,8 @@ From Dashu Require Import Base.Prelude Base.Words Int.ModRingSpec Int.ModRingSpe
   Int.ModRingMain Int.ModRingExpr Int.ModRingInst Int.ModRingInstProofs
   Int.DivWordModel Int.DivLargeProofs Int.DivContracts Int.ModRingWords Int.ModRingWordsProofs Int.ModRingWordsMulProofs Int.ModRingWordsInst
   Int.DivNumModular Int.ModRingNumModular Int.ModRingNumModularDefs
-  Int.ModRingConv Int.ModRingConvProofs Int.ModRingWordsSrc Int.ModRingConvInst Int.ModRingConvInstProofs Int.ModRingGenProofs.
+  Int.ModRingConv Int.ModRingConvProofs Int.ModRingWordsSrc Int.ModRingConvInst Int.ModRingConvInstProofs Int.ModRingGenProofs
+  Int.GrlModel Int.ModRingGcdSmall.
 From DashuGen Require Import ModRingGen.
 Open Scope Z_scope.
 
@@ -521,6 +522,49 @@ Theorem C13_words_inv : forall w, 2 <= w -> forall fgcd,
     end.
 Proof. exact wl_inv_ok. Qed.
 Print Assumptions C13_words_inv.
+
+(** ---------------- two of the three extended-gcd branches of inv_large without a contract ---------------- *)
+(** C12's as-is model of the primitive ExtendedGcd (Word / DoubleWord): gcd, Bezout identity, cofactors of opposite
+    signs bounded by the other operand over the gcd *)
+Theorem C13_gcd_prim_cofactors : forall fuel a b g s t, 0 < a -> 0 < b ->
+  prim_gcd_ext_asis fuel a b = Ok (g, s, t) ->
+  g = Z.gcd a b /\ s * a + t * b = g /\ s * t <= 0 /\ Z.abs s * g <= b /\ Z.abs t * g <= a.
+Proof. exact prim_gcd_ext_full. Qed.
+Print Assumptions C13_gcd_prim_cofactors.
+
+(** gcd_ext_word / gcd_ext_dword (divide, primitive extended Euclid on (rhs, remainder), |b| = q * |t| + |s| with the
+    sign rule of the source): total, the debug assertion on the carries cannot fire, and the result meets the contract
+    the modular inverse needs *)
+Theorem C13_gcd_ext_small : forall cap lhs rhs, 0 < rhs < lhs -> lhs <= cap ->
+  exists g b sg, gcd_ext_small_asis (small_fuel rhs) cap lhs rhs = Ok (g, b, sg) /\
+    g = Z.gcd lhs rhs /\ 0 <= b < lhs /\ (g = 1 -> (rhs * signed sg b) mod lhs = 1 mod lhs).
+Proof. exact gcd_ext_small_ok. Qed.
+Print Assumptions C13_gcd_ext_small.
+
+(** Reduced::inv of the multi-word ring on word lists, gcd_ext_word / gcd_ext_dword transcribed: the ONLY premise is
+    the contract of gcd_ext_in_place (Lehmer) on values of three and more words *)
+Theorem C13_words_inv_lehmer_only : forall w, 8 <= w -> forall lehmer,
+  (forall lhs rhs, 2 ^ w * 2 ^ w <= rhs < lhs ->
+     let '(g, b, s) := lehmer lhs rhs in
+     g = Z.gcd lhs rhs /\ 0 <= b < lhs /\ (g = 1 -> (rhs * signed s b) mod lhs = 1 mod lhs)) ->
+  forall R r x raw, lring_ok w R r -> ring_wf w r -> wrep w R r x raw ->
+  exists o, wl_inv w (gcd_ext_dispatch w lehmer) R raw = Ok o /\
+    match o with
+    | Some c => exists v, wrep w R r v c /\ is_inverse (r_m r) x (v mod r_m r) /\ Z.gcd x (r_m r) = 1
+    | None => Z.gcd x (r_m r) <> 1
+    end.
+Proof. exact src_inv. Qed.
+Print Assumptions C13_words_inv_lehmer_only.
+
+(** ... and the value-level theorems about inverse / division / expressions (C13_asis_inv, C13_asis_div, C13_expr_asis)
+    apply with that premise alone *)
+Theorem C13_externals_lehmer_only : forall w, 8 <= w -> forall lehmer,
+  (forall lhs rhs, 2 ^ w * 2 ^ w <= rhs < lhs ->
+     let '(g, b, s) := lehmer lhs rhs in
+     g = Z.gcd lhs rhs /\ 0 <= b < lhs /\ (g = 1 -> (rhs * signed s b) mod lhs = 1 mod lhs)) ->
+  externals_ok w (nm2by1 w) (nm3by2 w) nm_finv (gcd_ext_dispatch w lehmer).
+Proof. exact src_externals. Qed.
+Print Assumptions C13_externals_lehmer_only.
 
 (** ---------------- the second extracted 64-bit instance (word lists + real kernels; num-modular transcribed) ---------------- *)
 Theorem C13_hrun_reduce : forall m a, 1 <= m -> hrun_reduce m a = Ok (reduce_spec m a, m).
